@@ -56,8 +56,10 @@ EXPORT void reim4_from_cplx_simple(uint32_t m, double* r, const void* a) {
   static REIM4_FROM_CPLX_PRECOMP precomp[32];
   REIM4_FROM_CPLX_PRECOMP* p = precomp + log2m(m);
   if (!p->function) {
+    SPQLIOS_VERIF_EVENT(1, 16, log2m(m), 0, 0, 0);
     if (!init_reim4_from_cplx_precomp(p, m)) abort();
   }
+  SPQLIOS_VERIF_EVENT(2, 16, log2m(m), p->m, 0, 0);
   p->function(p, r, a);
 }
 
@@ -110,7 +112,9 @@ EXPORT void reim4_to_cplx_simple(uint32_t m, void* r, const double* a) {
   static REIM4_TO_CPLX_PRECOMP precomp[32];
   REIM4_TO_CPLX_PRECOMP* p = precomp + log2m(m);
   if (!p->function) {
+    SPQLIOS_VERIF_EVENT(1, 17, log2m(m), 0, 0, 0);
     if (!init_reim4_to_cplx_precomp(p, m)) abort();
   }
+  SPQLIOS_VERIF_EVENT(2, 17, log2m(m), p->m, 0, 0);
   p->function(p, r, a);
 }
